@@ -82,6 +82,16 @@ func corpusJobs() []job {
 	add(expNoErr, `BEGIN { x = $1; getline y < "DIR/data.txt"; print $1 }`, func(cs *c02Case) { cs.InMode = 1 })
 	add(expNoErr, `{ x = NF; getline y < "DIR/data.txt"; getline $2 < "DIR/data.txt"; "echo q" | getline z; $1 = "z"; print $1, $NF, NF }`, func(cs *c02Case) { cs.InMode = 1 })
 	add(expNoErr, `NR == 1 { n = NF; getline y; print $n; $n = 1 }`, func(cs *c02Case) { cs.InMode = 2 })
+	// regression witnesses of the repaired G02-2 (a var=value operand assigns an invalid regex to FS / RS; plain getline swallows the
+	// error; the next split / read used a nil regex; fixed in 089bfbf): must not panic, the main loop reports the error
+	args := func(a ...string) func(*c02Case) { return func(cs *c02Case) { cs.Args = a } }
+	add(expNoErr, `BEGIN { r = getline; $0 = "a b[xc"; print $1 }`, args("FS=[x"))
+	add(expNoErr, `BEGIN { r = getline; r2 = getline; r3 = getline v; print r, r2, r3, $1, v }`, args("RS=[x", "DIR/data.txt"))
+	add(expNoErr, `BEGIN { r = getline v; $0 = "a b[xc"; print $1, $2; while ((getline w) > 0) n++; print n, $NF }`, args("DIR/data.txt", "FS=a(", "RS=(b", "DIR/data.txt"))
+	add(expRegexErr, `{ print $1 }`, args("DIR/data.txt", "FS=[x", "DIR/data.txt"))
+	add(expRegexErr, `{ print $1 }`, args("RS=[x", "DIR/data.txt"))
+	add(expRegexErr, `BEGIN { FS = "[x" } { print $1 }`)
+	add(expNoErr, `BEGIN { FS = "q+" } NR == 1 { $0 = "aqqb"; print $2 }`)
 	// witnesses of the fixed findings F03 (RS a single non-UTF-8 byte) and F04 ($(huge) = …)
 	add(expNoErr, `BEGIN { RS = "\xff" } { n++ } END { print n }`)
 	add(expNoErr, `{ n++ } END { print n }`, vars("RS", "\xff"))
@@ -176,7 +186,9 @@ func corpusJobs() []job {
 	add(expAny, `BEGIN { print "x" > "`+"DIR"+`/adir"; print "y" > "`+"DIR"+`/nodir/f"; print "z" > "" }`)
 	add(expAny, `BEGIN { print "x" > "/dev/stderr"; print "y" | "cat 1>&2"; close("cat 1>&2"); printf "%s" > "/dev/null" }`)
 	add(expAny, `BEGIN { print > "`+"DIR"+`/o1"; print "a" >> "`+"DIR"+`/o1"; getline x < "`+"DIR"+`/o1"; print "b" > "`+"DIR"+`/o1" }`)
-	add(expAny, `{ print }`, func(cs *c02Case) { cs.Args = []string{"DIR/adir", "DIR/missing", "x=\xff", "DIR/data.txt", "=", "NF=-1"} })
+	add(expAny, `{ print }`, func(cs *c02Case) {
+		cs.Args = []string{"DIR/adir", "DIR/missing", "x=\xff", "DIR/data.txt", "=", "NF=-1"}
+	})
 	add(expAny, `{ print FILENAME, NR, FNR; nextfile }`, func(cs *c02Case) { cs.Args = []string{"DIR/data.txt", "-", "DIR/empty.txt", "RS=a(b", "DIR/data.txt"} })
 	// uninitialised as array / scalar, deletes, in
 	add(expNoErr, `function f(a) { a["x"] = 1 } function g(s) { return s + 1 } BEGIN { f(U); print length(U), g(V), (1 in W), length(X); delete Y; delete Z[1]; for (k in Q) print k; split("", R) }`)
